@@ -102,7 +102,7 @@ impl Socket for PSock {
     }
 }
 
-fn conn() -> Connection<PSock> {
+pub fn conn() -> Connection<PSock> {
     // The peer never answers: every receive stays pending.
     static NEVER: [Step; STEPS] = [Step::Pending; STEPS];
     Connection::new(PSock {
